@@ -2,7 +2,7 @@
 """usage: keep_seed.py <worktree> <seed-id> <property> <caught|missed-then-caught|missed> "<needs>" "<what>" [checks...]
 Copies patch + demo of an independently produced, confirmed seeded change into /verif/seeded/<seed-id>/ with meta.json."""
 import glob, json, os, shutil, subprocess, sys
-wt, sid, prop, result, needs, what = sys.argv[1:7]
+wt, sid, prop, result, needs, what = sys.argv[1:7]     # sid: sNNN-Cxx-slug
 checks = sys.argv[7:]
 d = os.path.join(os.path.dirname(os.path.dirname(os.path.abspath(__file__))), 'seeded', sid)
 os.makedirs(d, exist_ok=True)
